@@ -9,7 +9,7 @@ import warnings
 from . import core
 
 OP_LIST_KEYS = ("body", "prefix", "cont", "ops")
-TOP_LIST_KEYS = ("ops", "prefix", "cont", "history", "runs", "faults")
+TOP_LIST_KEYS = ("ops", "prefix", "cont", "history", "runs", "faults", "cells")
 
 
 def _init(mod):
